@@ -147,4 +147,5 @@ example : weight [0, 0, 0, 4, 0, 0] + weight [0, 0] = 1 ∧
     crcValidate (xorL [0x80, 0xb0, 0x01, 0x2b, 0x00, 0x00] [0, 0, 0, 4, 0, 0]) (xorL [0xf5, 0x2f] [0, 0]) = .result false := by
   decide +kernel
 
+
 end PyAirtouch.Props.C06
